@@ -74,7 +74,28 @@ CASE_TIMEOUT = float(os.environ.get('VERIF_CASE_TIMEOUT', '300'))
 _TIMEOUTS = [0]      # after three calls that did not come back the limit drops to 5 s for the rest of the run
 
 
-def _watchdog(fn, *args):
+REDOS_SKIP = 'SKIP the regex engine did not come back (catastrophic backtracking on a generated pattern with nested quantifiers)'
+_QUANT = ('star', 'plus', 'opt')
+
+
+def _has_quant(x):
+    return isinstance(x, list) and ((len(x) == 2 and x[0] in ('star', 'plus')) or any(_has_quant(y) for y in x))
+
+
+def redos_prone(x):
+    """does the case hold a regex AST with a quantifier over something that itself repeats ((a*)+, ((.)+)*, (a?)*)?
+    Python's backtracking matcher can take exponential time on those - on the unchanged code as well.  Such a case that
+    does not come back is no observation about vakt (the model's derivative matcher always terminates)"""
+    if isinstance(x, dict):
+        return any(redos_prone(y) for y in x.values())
+    if isinstance(x, list):
+        if len(x) == 2 and x[0] in _QUANT and isinstance(x[1], list) and _has_quant(x[1]):
+            return True
+        return any(redos_prone(y) for y in x)
+    return False
+
+
+def _watchdog(fn, *args, limit=None):
     """run fn(*args) under a wall-clock limit (main thread only): a changed implementation may loop for ever - e.g. a
     pagination window that never empties - and the check must come back with that case as its finding"""
     import signal
@@ -83,11 +104,13 @@ def _watchdog(fn, *args):
         return fn(*args)
 
     def on_alarm(signum, frame):
-        _TIMEOUTS[0] += 1
+        if limit is None:
+            _TIMEOUTS[0] += 1
         raise CaseTimeout()
     old = signal.signal(signal.SIGALRM, on_alarm)
     # repeating: a driver that swallows the exception (it records whatever the implementation raises) is hit again
-    signal.setitimer(signal.ITIMER_REAL, CASE_TIMEOUT if _TIMEOUTS[0] < 3 else 5.0, 2.0)
+    first = limit if limit is not None else (CASE_TIMEOUT if _TIMEOUTS[0] < 3 else 5.0)
+    signal.setitimer(signal.ITIMER_REAL, first, 2.0)
     try:
         return fn(*args)
     finally:
@@ -97,9 +120,15 @@ def _watchdog(fn, *args):
 
 def safe_impl(stream, case):
     """the implementation driver must not crash the check: an exception escaping it is an observation"""
+    prone = redos_prone(case)
     try:
-        return _watchdog(stream.impl, case)
+        obs = _watchdog(stream.impl, case, limit=30.0 if prone else None)
+        if prone and isinstance(obs, str) and 'CaseTimeout' in obs:
+            return REDOS_SKIP          # the driver recorded the interruption as one of its answers
+        return obs
     except CaseTimeout:
+        if prone:
+            return REDOS_SKIP
         return 'IMPL-TIMEOUT no answer within %ds' % CASE_TIMEOUT
     except BaseException as e:  # noqa
         if core.fatal(e):
@@ -108,9 +137,14 @@ def safe_impl(stream, case):
 
 
 def safe_oracle(stream, case, obs):
+    if obs == REDOS_SKIP:
+        return None
+    prone = redos_prone(case)
     try:
-        return _watchdog(stream.oracle, case, obs)
+        return _watchdog(stream.oracle, case, obs, limit=30.0 if prone else None)
     except CaseTimeout:
+        if prone:
+            return None
         return 'the implementation did not come back within %ds while the oracle was asking it' % CASE_TIMEOUT
 
 
@@ -299,7 +333,7 @@ def run_check(prop, streams, argv, level_text='', trusted_base=(), assumptions=(
                 oc = safe_oracle(st, c, io)
             except Exception:  # noqa
                 oc = 'oracle crashed: ' + traceback.format_exc()[-500:]
-            unmod = st.unmodelled(io, mo)
+            unmod = io == REDOS_SKIP or st.unmodelled(io, mo)
             if unmod:
                 n_unmod += 1
             bucket = (io or '')[:1] if not io.startswith(('E:', 'B:')) else io.split(' ')[0][:24]
@@ -334,7 +368,7 @@ def run_check(prop, streams, argv, level_text='', trusted_base=(), assumptions=(
                         o = safe_oracle(st, x, a)
                     except Exception:  # noqa
                         o = None
-                    d = b is not None and not st.unmodelled(a, b) and not st.same(a, b)
+                    d = b is not None and a != REDOS_SKIP and not st.unmodelled(a, b) and not st.same(a, b)
                     k2 = st.classify(x, a, b)
                     out.append((o is not None or d) and not (k2 and k2 in known_open))
                 return out
@@ -351,7 +385,7 @@ def run_check(prop, streams, argv, level_text='', trusted_base=(), assumptions=(
             except Exception:  # noqa
                 oc2 = oc
             def still_fails(x, a, b, o):
-                d_ = b is not None and not st.unmodelled(a, b) and not st.same(a, b)
+                d_ = b is not None and a != REDOS_SKIP and not st.unmodelled(a, b) and not st.same(a, b)
                 return o is not None or d_
             if not replay and not still_fails(small, io2, mo2, oc2):
                 # the minimised case does not fail when evaluated again: fall back to the case as generated, and
